@@ -243,6 +243,14 @@ func (its *WiredDatatype) ApplyPushPullPack(ppp *model.PushPullPack) {
 	// and the checkpoint update the other response decided the same and both applied the same operations.
 	its.applyMutex.Lock()
 	defer its.applyMutex.Unlock()
+	if its.state == model.StateOfDatatype_SUBSCRIBED && !ppp.GetPushPullPackOption().HasErrorBit() &&
+		ppp.GetPushPullPackOption().HasSubscribeBit() {
+		// A subscribed datatype never asks to subscribe: this is the late answer to a subscription request that was
+		// made again and answered meanwhile. Acting on it would reset the snapshot, the buffer and the operation id of
+		// a datatype that has been working since.
+		its.L().Warnf("ignore the stale answer to a subscription: %s", ppp.ToString(false))
+		return
+	}
 	var oldState, newState model.StateOfDatatype
 	var errs errors.OrdaError = &errors.MultipleOrdaErrors{}
 	var opList []interface{}
